@@ -14,18 +14,21 @@ SOURCES = ["mls-rs/src/group/proposal_filter/filtering.rs", "mls-rs/src/group/pr
 def run(ctx):
     n = "400" if ctx.tier == "thorough" else "40"
     return generic.standard(
-        ctx, ["MlsVerif.Props.C10"], ["hist", "--histories", n, "--offend", "600", "--focus", "C10,C01"], "filter", "hist-filter", SOURCES,
+        ctx, ["MlsVerif.Props.C10", "MlsVerif.Props.C10Lifetime"], ["hist", "--histories", n, "--offend", "600", "--focus", "C10,C01"], "filter", "hist-filter", SOURCES,
         rule="per history up to 14 rounds, <= 9 members: by-reference add/update/remove/PSK proposals from random members in random cache order, "
              "with probability 0.6 per round 1-3 offending by-reference proposals; by-value add/remove/PSK extras; one row per commit and mode: "
              "(committer leaf, tree, ordered abstract bundle) -> applied handles + path flag, or error; non-trivial = rows",
         what_corr="the implementation keeps / drops / rejects a proposal set differently from the filter model",
         what_oracle="an honest receiver rejected a commit the library let a member build, or reports different applied/unused proposals",
-        assumptions=["payload validity facts (signatures, lifetimes, capabilities, identity provider verdict, PSK presence) are attributes of the abstract proposal, equal on both sides; "
-                     "the generated offenders are structural (sender/type, committer, leaf conflicts); group-context-extension and re-init mixes are proved on the model but not generated",
+        assumptions=["payload validity facts (signatures, capabilities, identity provider verdict, PSK presence) are attributes of the abstract proposal, equal on both sides "
+                     "(generated: revoked identities, default values listed in the capabilities, expired lifetime); the lifetime window itself is the model Lifetime.addOk, "
+                     "tied by the `life` rows of the directed scenario (committer clock before / inside / after the window, receivers with clocks of their own or none)",
                      "bundle order of cached proposals is read through hook verif_cached_proposals_in_bundle_order (HashMap iteration order)"],
         nontrivial=lambda r, kv: r["rows"],
-        # directed: by-reference proposals from an external sender (allowed types, and a relayed member Update which it may not send)
-        also=[(["c10x"], None, "c10x")])
+        # directed: by-reference proposals from an external sender (allowed types, and a relayed member Update which it may not send);
+        # group-context-extension mixes with clients of different capabilities; key-package lifetime against the committer's and the
+        # receivers' clocks (`life` rows: window, clock -> verdict, replayed on `Lifetime.addOk`)
+        also=[(["c10x"], "small", "c10x")])
 
 
 def replay(ctx, path):
